@@ -3,6 +3,7 @@ CONSTANTS
   Sigs = {"INT", "QUIT"}
   WithExit = FALSE
   MaxH = 100
+  UniformInit = FALSE
 VIEW view
 INVARIANT Consistent
 INVARIANT EmitState
